@@ -207,20 +207,42 @@ def judge (_id : String) (lines : Array String) : Verdict := Id.run do
         wks := aset wks idn wn
       | _, _ => return .badop s!"missing oracle tokens: {l}"
     | _ => pure ()
-  let mut c : Ctx := { env := mkEnv tbls wks, tbls := tbls }
+  let env := mkEnv tbls wks
+  -- PASS 1: the property on the OBSERVED output of the whole case (independent of the model)
+  let mut mon : Mon := {}
   for l in lines do
     let (opT, obs) := splitObs (tokens l)
     if opT.head? == some "cfg" then continue
     let some op := parseOp opT | return .badop l
     let status := obs.head?.getD ""
     if status == "badcron" || status == "badline" || status == "" then return .badop l
-    -- (1) the property on the observed output
     if status == "blocked" then return .specfail "returns-promptly" s!"{" ".intercalate opT} did not return"
     if status == "panic" then return .specfail "no-panic" s!"{" ".intercalate opT} panicked"
     if status == "dead" then return .badop l
     let some evTok := field "ev=" obs | return .badop l
     let evToks := if evTok == "-" then [] else evTok.splitOn ","
     if evToks.any (fun t => t.startsWith "o:") then return .specfail "no-overlap" s!"{" ".intercalate opT}: two Execute calls of one task at once ({evTok})"
+    let some obsEvs := evToks.mapM parseEv | return .badop l
+    let callEv : List Ev := match op with
+      | .sched id sc off last => if status == "ok" then [.sched id sc off last] else [.schedErr id]
+      | .rel id => [.rel id]
+      | .adv d => if status == "refused" then [] else [.clock (mon.now + d)]
+      | .done .. => []
+    match monRun env.nx mon (callEv ++ obsEvs.map (·.1)) with
+    | .error clause => return .specfail clause s!"at `{" ".intercalate opT}` observed {evTok}"
+    | .ok m' => mon := m'
+    let idle := dueIdle env.wk mon
+    if !idle.isEmpty then
+      return .specfail "due-run-dispatched" s!"after `{" ".intercalate opT}` task(s) {idle} have a due occurrence, an idle worker and no run"
+  -- PASS 2: observed = model, op by op
+  let mut c : Ctx := { env := env, tbls := tbls }
+  for l in lines do
+    let (opT, obs) := splitObs (tokens l)
+    if opT.head? == some "cfg" then continue
+    let some op := parseOp opT | return .badop l
+    let status := obs.head?.getD ""
+    let some evTok := field "ev=" obs | return .badop l
+    let evToks := if evTok == "-" then [] else evTok.splitOn ","
     let some obsEvs := evToks.mapM parseEv | return .badop l
     let s := c.model
     let callEv : List Ev := match op with
@@ -231,9 +253,6 @@ def judge (_id : String) (lines : Array String) : Verdict := Id.run do
     match monRun c.env.nx c.mon (callEv ++ obsEvs.map (·.1)) with
     | .error clause => return .specfail clause s!"at `{" ".intercalate opT}` observed {evTok}"
     | .ok m' => c := { c with mon := m' }
-    let idle := dueIdle c.env.wk c.mon
-    if !idle.isEmpty then
-      return .specfail "due-run-dispatched" s!"after `{" ".intercalate opT}` task(s) {idle} have a due occurrence, an idle worker and no run"
     -- (2) observed = model
     let expStatus : String := match op with
       | .sched _ sc _ last => if (c.env.nx sc last).isSome then "ok" else "err"
